@@ -67,10 +67,13 @@ class RegionBoundingBox:
         if iymin > iymax:
             raise ValueError('iymin must be <= iymax')
 
-        self.ixmin = ixmin
-        self.ixmax = ixmax
-        self.iymin = iymin
-        self.iymax = iymax
+        # numpy integer scalars are valid inputs, but they must not be
+        # kept: their arithmetic wraps around (e.g., ``-ymin`` for an
+        # unsigned type or ``iymax - iymin`` for a narrow signed type)
+        self.ixmin = int(ixmin)
+        self.ixmax = int(ixmax)
+        self.iymin = int(iymin)
+        self.iymax = int(iymax)
 
     @classmethod
     def from_float(cls, xmin, xmax, ymin, ymax):
